@@ -8,6 +8,7 @@ pub mod c05;
 pub mod c06;
 pub mod c07;
 pub mod c12;
+pub mod c13;
 pub mod c17;
 pub mod c19;
 pub mod c08;
@@ -25,6 +26,7 @@ pub fn dispatch(cfg: &Config) -> i32 {
         "C06" => c06::run(cfg),
         "C07" => c07::run(cfg),
         "C12" => c12::run(cfg),
+        "C13" => c13::run(cfg),
         "C17" => c17::run(cfg),
         "C19" => c19::run(cfg),
         "C08" => c08::run(cfg),
